@@ -226,15 +226,21 @@ func (ctx *cmdContext) infoUnlocked(cs *clientState) string {
 		flags.WriteString("N")
 	}
 
+	// session fields of the listed connection are written by that connection
+	// under its own lock
+	cs.mu.Lock()
+	name, selectedDb, user, respVersion := cs.name, cs.selectedDb, cs.user, cs.respVersion
+	cs.mu.Unlock()
+
 	info = append(info,
 		fmt.Sprintf("id=%d", cs.id),
-		"name="+cs.name,
-		fmt.Sprintf("db=%d", cs.selectedDb),
+		"name="+name,
+		fmt.Sprintf("db=%d", selectedDb),
 		fmt.Sprintf("multi=%d", multi),
 		fmt.Sprintf("flags=%s", flags.String()),
 		"cmd="+ctx.cmdToken,
-		"user="+cs.user,
-		fmt.Sprintf("resp=%d", cs.respVersion),
+		"user="+user,
+		fmt.Sprintf("resp=%d", respVersion),
 	)
 
 	var sb strings.Builder
